@@ -337,6 +337,97 @@ def load(repo_root, rel):
     return {n.name: n for n in tree.body if isinstance(n, ast.ClassDef)}
 
 
+# ---------------------------------------------------------------- the link run loops
+# Obligation "every exit of run_as_initiator / run_as_target that ends the link calls terminate()":
+#   * the function body ends in ONE try statement with handlers and a finally clause that only logs;
+#   * inside the try body every `return` is `return self.terminate(reason=<string constant>)` and the
+#     `while ... else:` clause calls self.terminate(reason=<constant>);
+#   * every handler names its exception class(es) directly (KeyboardInterrupt, IOError, sec.<Error>) and its
+#     body is: optionally `print()` and `self.link.<STATE> = True`, then `self.terminate(reason=<string
+#     constant>)`, then a `raise <Name>`.  Nothing that can itself raise (a subscript, a dictionary or
+#     attribute lookup on the exception, a call with computed arguments) may come before terminate():
+#     otherwise an error inside the handler would leave the sockets open.
+# Anything else makes the extraction FAIL (closed).  The handled classes are emitted into the Gen file and
+# Bridge/C09Skel.v checks that the required ones are there.
+RUN_LOOPS = ('run_as_initiator', 'run_as_target')
+REQUIRED_HANDLED = ('KeyboardInterrupt', 'IOError', 'sec.KeyAgreementError', 'sec.DecryptionError', 'sec.EncryptionError')
+
+
+def is_const_terminate(call):
+    return (isinstance(call, ast.Call) and dotted(call.func) == 'self.terminate'
+            and all(isinstance(a, ast.Constant) and isinstance(a.value, str) for a in call.args)
+            and all(isinstance(k.value, ast.Constant) and isinstance(k.value.value, str) for k in call.keywords)
+            and (call.args or call.keywords))
+
+
+def is_log_call(n):
+    return isinstance(n, ast.Expr) and isinstance(n.value, ast.Call) and (dotted(n.value.func) or '').startswith('log.')
+
+
+def check_handler(fname, h):
+    if h.type is None:
+        raise SkelError('%s: bare except' % fname)
+    types = h.type.elts if isinstance(h.type, ast.Tuple) else [h.type]
+    names = []
+    for t in types:
+        d = dotted(t)
+        if d is None or d.startswith('self.') or not (d in ('KeyboardInterrupt', 'IOError', 'OSError', 'EnvironmentError')
+                                                      or d.startswith('sec.')):
+            raise SkelError('%s: handler for a computed exception class (%s)' % (fname, ast.dump(t)[:60]))
+        names.append(d)
+    body = list(h.body)
+    while body:
+        n = body[0]
+        if isinstance(n, ast.Expr) and isinstance(n.value, ast.Call) and dotted(n.value.func) == 'print' \
+                and not n.value.args and not n.value.keywords:
+            body.pop(0)
+        elif isinstance(n, ast.Assign) and len(n.targets) == 1 and (dotted(n.targets[0]) or '').startswith('self.link.') \
+                and isinstance(n.value, ast.Constant):
+            body.pop(0)
+        elif is_log_call(n) and all(isinstance(a, ast.Constant) for a in n.value.args):
+            body.pop(0)
+        else:
+            break
+    if not body or not (isinstance(body[0], ast.Expr) and is_const_terminate(body[0].value)):
+        raise SkelError('%s: the handler for %s can raise before it calls self.terminate(reason=<constant>) '
+                        '(found: %s)' % (fname, '/'.join(names), ast.dump(body[0])[:120] if body else 'nothing'))
+    for n in body[1:]:
+        if not (isinstance(n, ast.Raise) and (n.exc is None or isinstance(n.exc, ast.Name)
+                                              or (isinstance(n.exc, ast.Call) and isinstance(n.exc.func, ast.Name) and not n.exc.args))):
+            raise SkelError('%s: unexpected statement after terminate() in the handler for %s' % (fname, '/'.join(names)))
+    return names
+
+
+def check_run_loop(fn):
+    body = [n for n in fn.body if not (isinstance(n, ast.Expr) and isinstance(n.value, ast.Constant))]
+    if not body or not isinstance(body[-1], ast.Try):
+        raise SkelError('%s: does not end in a try statement' % fn.name)
+    for n in body[:-1]:
+        for m in ast.walk(n):
+            if isinstance(m, (ast.Return, ast.Raise, ast.While, ast.For)):
+                raise SkelError('%s: control flow before the try statement' % fn.name)
+    tr = body[-1]
+    if not tr.finalbody or not all(is_log_call(n) for n in tr.finalbody):
+        raise SkelError('%s: the finally clause does more than logging' % fn.name)
+    if tr.orelse:
+        raise SkelError('%s: try/else' % fn.name)
+    for n in tr.body:
+        for m in ast.walk(n):
+            if isinstance(m, (ast.FunctionDef, ast.Lambda, ast.Try)):
+                raise SkelError('%s: nested %s in the loop body' % (fn.name, type(m).__name__))
+            if isinstance(m, ast.Return) and not is_const_terminate(m.value):
+                raise SkelError('%s: a return inside the loop that is not `return self.terminate(reason=<constant>)`' % fn.name)
+            if isinstance(m, ast.While):
+                if not m.orelse or not any(isinstance(x, ast.Expr) and is_const_terminate(x.value) for x in m.orelse):
+                    raise SkelError('%s: the while loop can end without terminate()' % fn.name)
+    if not any(isinstance(m, ast.While) for n in tr.body for m in ast.walk(n)):
+        raise SkelError('%s: no loop found' % fn.name)
+    handled = []
+    for h in tr.handlers:
+        handled += check_handler(fn.name, h)
+    return handled
+
+
 SKIP_METHODS = {'__init__', '__str__', 'log', 'err'}
 # the blocking primitives of the base class are only reached through the subclass methods that wrap
 # them (inlined there); a subclass that does not override one of them does not offer it through the
@@ -395,6 +486,21 @@ def generate(repo_root):
             ident = 'ServiceDiscovery_%s' % n.name
             out.append('Definition %s : stmt := %s.' % (ident, body))
             entries.append(('ServiceDiscovery.%s' % n.name, 'conds_ServiceDiscovery', ident))
+    llc_cls = ll.get('LogicalLinkController')
+    if llc_cls is None:
+        raise SkelError('class LogicalLinkController not found')
+    loops = []
+    for name in RUN_LOOPS:
+        fns = [n for n in llc_cls.body if isinstance(n, ast.FunctionDef) and n.name == name]
+        if len(fns) != 1:
+            raise SkelError('method %s not found' % name)
+        handled = check_run_loop(fns[0])
+        loops.append('("%s", [%s])' % (name, '; '.join('"%s"' % h for h in handled)))
+    out.append('')
+    out.append('(* the run loops: exception classes whose handler calls self.terminate(<constant>) first (every other')
+    out.append('   exit of the try body is `return self.terminate(..)` or the while/else clause with terminate) *)')
+    out.append('Definition run_loop_handled : list (string * list string) :=')
+    out.append('  [' + ';\n   '.join(loops) + '].')
     out.append('')
     out.append('Definition tco_skel : list (string * list cond * stmt) :=')
     out.append('  [' + ';\n   '.join('("%s", %s, %s)' % e for e in entries) + '].')
